@@ -242,6 +242,144 @@ static void scenario_pool_full(uint64_t cid, vh::Rng r) {
 }
 
 // ---------------------------------------------------------------------------------------------------------------
+// The pattern of the RHD driver: a prefix of permanently held slots (hydro tasks), per step many short-lived slots taken
+// and freed by several threads -- enough for the cursor to wrap around the pool -- some of which are still held when,
+// at the quiescent end of the step, clear_after(prefix) releases everything behind the prefix.  Afterwards the occupancy
+// count is the prefix, every slot behind it can be obtained again (exactly once), and none in front of it.
+static void scenario_pool_clear(uint64_t cid, vh::Rng r) {
+  const size_t S = 8 + r.below(120);
+  const size_t prefix = r.below(S / 2);
+  const int T = 1 + (int)r.below(4);
+  const int steps = 2 + (int)r.below(4);
+  ThreadSafeVector< Task > pool(S, "c08 clear pool");
+  for (size_t i = 0; i < prefix; ++i) {
+    const size_t idx = pool.get_free_element();
+    if (idx != i) TVIOL("pool/clear/prefix", cid, "fresh pool: request %zu returned slot %zu", i, idx);
+  }
+  const size_t room = S - prefix;
+  for (int step = 0; step < steps; ++step) {
+    std::vector< std::vector< size_t > > left(T);
+    std::vector< std::thread > th;
+    // every thread may hold at most room/T slots at a time, and takes 1..3 x room slots in total: the cursor wraps
+    const size_t quota = std::max< size_t >(1, room / T);
+    for (int t = 0; t < T; ++t) {
+      th.emplace_back([&, t, step]() {
+        vh::Rng rr = r.fork(100 * step + t);
+        std::vector< size_t > mine;
+        const uint64_t K = room * (1 + rr.below(3)) + rr.below(7);
+        for (uint64_t k = 0; k < K; ++k) {
+          if (mine.size() < quota && (mine.empty() || rr.chance(0.6))) {
+            const size_t idx = pool.get_free_element();
+            if (idx < prefix || idx >= S) TVIOL("pool/clear/prefix", cid, "slot %zu handed out although the first %zu slots are held", idx, prefix);
+            mine.push_back(idx);
+          } else if (!mine.empty()) {
+            const size_t j = rr.below(mine.size());
+            pool.free_element(mine[j]);
+            mine[j] = mine.back();
+            mine.pop_back();
+          }
+        }
+        left[t] = mine;  // still held at the end of the step
+      });
+    }
+    for (auto &x : th) x.join();
+    size_t held = prefix;
+    for (auto &m : left) held += m.size();
+    if (pool.get_number_of_active_elements() != held)
+      TVIOL("pool/occupancy", cid, "end of step %d: pool reports %zu taken slots, %zu are held (size %zu, prefix %zu)", step, pool.get_number_of_active_elements(), held, S, prefix);
+    stat("poolclear_slots_held_at_clear", held - prefix);
+    pool.clear_after(prefix);
+    stat("poolclear_clears");
+    if (pool.get_number_of_active_elements() != prefix)
+      TVIOL("pool/occupancy", cid, "after clear_after(%zu) the pool reports %zu taken slots (size %zu)", prefix, pool.get_number_of_active_elements(), S);
+    // every slot behind the prefix is available again, exactly once.  The requests run in a helper thread: if the count
+    // says "free slots exist" while every flag is still set, a request never returns (bounded wait: 2e8 yields, the
+    // whole loop normally takes microseconds)
+    std::vector< char > seen(S, 0);
+    std::atomic< size_t > got(0);
+    std::atomic< int > done(0);
+    std::thread verifier([&]() {
+      for (size_t i = 0; i < room; ++i) {
+        const size_t idx = pool.get_free_element_safe();
+        if (idx >= S) break;
+        if (idx < prefix || seen[idx]) { TVIOL("pool/two-owners", cid, "after clear_after(%zu): slot %zu handed out %s", prefix, idx, idx < prefix ? "although it belongs to the held prefix" : "twice"); break; }
+        seen[idx] = 1;
+        got.fetch_add(1);
+      }
+      done.store(1);
+    });
+    uint64_t waited = 0;
+    while (!done.load() && ++waited < 200000000ull) std::this_thread::yield();
+    if (!done.load()) {
+      TVIOL("pool/slot-not-reusable", cid, "after clear_after(%zu) on a pool of %zu (occupancy count %zu): a request for one of the %zu released slots never returned after %zu were obtained (step %d, %zu were held at the clear)",
+            prefix, S, pool.get_number_of_active_elements(), room, got.load(), step, held - prefix);
+      g_st.print();
+      std::printf("DONE violations=%" PRIu64 "\n", vh::g_nviol);
+      std::fflush(stdout);
+      _exit(1);  // the helper thread cannot be stopped
+    }
+    verifier.join();
+    if (got.load() != room) {
+      TVIOL("pool/slot-not-reusable", cid, "after clear_after(%zu) on a pool of %zu only %zu of the %zu released slots could be obtained again (step %d, %zu were held at the clear)", prefix, S, got.load(), room,
+            step, held - prefix);
+      stat("poolclear_histories");
+      return;  // the next step would block for ever on the slots that were lost
+    } else if (pool.get_free_element_safe() < S)
+      TVIOL("pool/overcommitted", cid, "after clear_after(%zu): more than %zu slots handed out", prefix, room);
+    pool.clear_after(prefix);  // back to the state at the start of a step
+  }
+  stat("poolclear_histories");
+}
+
+// ---------------------------------------------------------------------------------------------------------------
+// The blocking request on a FULL pool (what a worker does when the task pool is momentarily exhausted): it may wait, but
+// what it finally returns must be a slot that was released, never one that somebody still holds.  The main thread holds
+// every slot, R requesters block in get_free_element(), then exactly R slots are released one by one.
+static void scenario_pool_blocking(uint64_t cid, vh::Rng r) {
+  const size_t S = 2 + r.below(12);
+  const int R = 1 + (int)r.below(std::min< size_t >(3, S));
+  ThreadSafeVector< Task > pool(S, "c08 blocking pool");
+  std::vector< std::atomic< int > > owner(S);
+  for (size_t i = 0; i < S; ++i) {
+    const size_t idx = pool.get_free_element();
+    if (idx >= S) { TVIOL("pool/two-owners", cid, "fresh pool returned slot %zu of %zu", idx, S); return; }
+    owner[idx].store(1000);  // held by the main thread
+  }
+  std::atomic< int > waiting(0), served(0);
+  std::vector< std::thread > th;
+  for (int t = 0; t < R; ++t) {
+    th.emplace_back([&, t]() {
+      waiting.fetch_add(1);
+      const size_t idx = pool.get_free_element();
+      if (idx >= S) { TVIOL("pool/two-owners", cid, "blocking request on a full pool of %zu returned %zu", S, idx); served.fetch_add(1); return; }
+      int expect = -1;
+      if (!owner[idx].compare_exchange_strong(expect, t))
+        TVIOL("pool/two-owners", cid, "blocking request on a full pool of %zu returned slot %zu, which %s still holds", S, idx, expect == 1000 ? "the main thread" : "another requester");
+      served.fetch_add(1);
+    });
+  }
+  while (waiting.load() < R) std::this_thread::yield();
+  // let the requesters sweep the full pool a few times before anything is released
+  for (int k = 0; k < 2000; ++k) std::this_thread::yield();
+  std::vector< size_t > order(S);
+  for (size_t i = 0; i < S; ++i) order[i] = i;
+  for (size_t i = S - 1; i > 0; --i) std::swap(order[i], order[r.below(i + 1)]);
+  for (int k = 0; k < R; ++k) {
+    owner[order[k]].store(-1);
+    pool.free_element(order[k]);
+    const int want = k + 1;
+    uint64_t spins = 0;
+    while (served.load() < want && ++spins < 400000000ull) std::this_thread::yield();
+    if (served.load() < want) { TVIOL("pool/slot-not-reusable", cid, "slot %zu of a full pool of %zu was released but no blocked requester obtained it", order[k], S); break; }
+  }
+  // a requester that was never served would block for ever: release everything so that the threads can end
+  if (served.load() < R) for (size_t i = 0; i < S; ++i) if (owner[i].load() == 1000) { owner[i].store(-1); pool.free_element(i); }
+  for (auto &x : th) x.join();
+  stat("poolblocking_histories");
+  stat("poolblocking_requests_served", (uint64_t)served.load());
+}
+
+// ---------------------------------------------------------------------------------------------------------------
 static void scenario_queue(uint64_t cid, vh::Rng r) {
   const int L = 1 + r.below(8);
   const int P = 1 + r.below(4), C = 1 + r.below(12);
@@ -606,8 +744,12 @@ int main(int argc, char **argv) {
     if (!std::strstr(kinds, names[k])) continue;
     switch (k) {
     case 0:
-      if ((h / 5) % 2 == 0) scenario_pool(h, r);
-      else scenario_pool_full(h, r);
+      switch ((h / 5) % 4) {
+      case 0: scenario_pool(h, r); break;
+      case 1: scenario_pool_full(h, r); break;
+      case 2: scenario_pool_clear(h, r); break;
+      default: scenario_pool_blocking(h, r); break;
+      }
       break;
     case 1: scenario_queue(h, r); break;
     case 2: scenario_lock(h, r); break;
